@@ -346,6 +346,27 @@ theorem call_sockOK (cfg : Cfg) (ie so : Bool) (c : Call) (sc : Script) : SockOK
         intro a c h
         (repeat' split at h)
         all_goals cases h
+  | stats args =>
+    simp only [call]
+    split
+    · exact sockOK_early _ _
+    · exact sockOK_mapOut _ _ _ _ (fun c h => exchangeFetch_sock _ _ _ _ _ _ h) (fun a c h => by cases h)
+  | cacheMemlimit m =>
+    simp only [call]
+    split
+    · exact sockOK_early _ _
+    · split
+      · exact sockOK_early _ _
+      · exact sockOK_mapOut _ _ _ _ (fun c h => exchangeFetch_sock _ _ _ _ _ _ h) (fun a c h => by cases h)
+  | shutdown g =>
+    intro code h
+    cases hx : (exchangeMisc [shutdownCmd g] false none so sc).res with
+    | ok r => rw [shutdown_res_ok cfg ie so g sc hx] at h; cases h
+    | error e =>
+      rw [shutdown_res_error cfg ie so g sc hx] at h
+      split at h
+      · cases h
+      · cases h; exact exchangeMisc_sock _ _ _ _ _ hx
   | _ =>
     simp only [call]
     repeat' split
